@@ -241,7 +241,8 @@ def check_package(r, s, rng, fname, src, tdir, with_dir):
             if b1 is None or b2 is None:
                 J.bad('no-body', 'content.xml or the flat document has no office:body')
             else:
-                back = {('Pictures/%s' % p): u for u, p in table}
+                xesc = lambda u: u.replace('&', '&amp;').replace('<', '&lt;').replace('>', '&gt;').replace('"', '&quot;')      # the flat writer escapes the URL it prints
+                back = {('Pictures/%s' % p): xesc(u) for u, p in table}
                 n1 = re.sub(('Pictures/' + UUID).encode(), lambda m: back.get(m.group(0).decode(), m.group(0).decode()).encode(), b1)
                 n2 = b2
                 n2 = re.sub(rb'<office:binary-data>.*?</office:binary-data>', b'', n2, flags=re.S)
